@@ -184,6 +184,8 @@ def _gen_ops(w, tags, depth, budget, allow_fault_free=True):
                     tree = tree[:-1]
                 if not tree:
                     tree = [["text", "x"]]
+                if raw_of(tree).endswith("\n") or visible_of(tree).endswith("\n"):
+                    tree = tree + [["text", "x"]]  # e.g. a newline inside a trailing tag
             ops.append(["write", m, tree])
         elif k == "scope":
             ops.append(["scope", w.pick(["io", "io", "out", "err", "sec"]), w.pick(["set", "inc"]),
